@@ -374,6 +374,17 @@ class ArrV:
         return ArrV(self.eng, Arr(self.arr.base, field, self.arr.lo, self.arr.n), self.heap)
 
 
+class VecV:
+    """Clause view of a lazy element-wise vector."""
+
+    def __init__(self, vec):
+        self.n, self._fn = vec.n, vec.fn
+        self.base = None
+
+    def at(self, j):
+        return self._fn(j)
+
+
 class ListV:
     def __init__(self, eng, ref, heap):
         cell = heap[ref.base]
@@ -516,6 +527,8 @@ class Engine:
             return tuple(self.resolve(x, heap) for x in v)
         if isinstance(v, Row):
             return RowView(self, v, heap)
+        if isinstance(v, Vec):
+            return VecV(v)
         return v
 
     def namespace(self, st, entry=None, extra=None):
@@ -867,6 +880,9 @@ class Engine:
                 return k(Opq(f(z3.Const("arr:" + v.base, V))), st)
         if isinstance(v, Named):
             return k(Named(v.name + "." + attr), st)
+        if isinstance(v, Row):
+            # record-style field access d.field
+            return self.index(v, attr, st, fr, k, node)
         raise Unsupported(f"attribute {attr} on {type(v).__name__}")
 
     def ev_Subscript(self, e, st, fr, k):
